@@ -1149,7 +1149,9 @@ def ensure_valid_identifier(s):
     valid: FrozenSet[str] = frozenset(
         "_{}{}".format(string.ascii_letters, string.digits)
     )
-    return "".join(filter(valid.__contains__, s)) or "_"
+    s: str = "".join(filter(valid.__contains__, s)) or "_"
+    # Dropping invalid leading characters can expose a digit
+    return "_{}".format(s) if s[0].isdigit() else s
 
 
 def set_attr(obj, key, val):
